@@ -33,6 +33,9 @@ claimed={
  'C15':dict(level='exploration',engine='E1-histories',technique='runtime monitoring: differential lock-step executions (load_outputs all vs minimal) with per-command dependency-view self-checks',
    text='The same seeded history (edits, reverts, taints, wiped workspaces, partial selections, deleted cache blobs) runs in two separate workspaces and caches; per build the exit status and executed set must agree, every command executed under minimal must have recorded dependency outputs that are present and current (also through aliases), and outputs of executed targets must equal the reference bytes.',
    note='After an injected cache fault the executed sets may legitimately differ (a dependency with irretrievable outputs must be re-run under minimal only): from then on only exit status, views and bytes are judged.', ref='4/C15'),
+ 'C06':dict(level='exploration',engine='E3-store',technique='runtime monitoring: recursive-listing equality (type, exec bit, size, sha256, link target) before caching vs after restore, in-process handlers and real binary',
+   text='The real file and directory output handlers (over a real CAS on the fs backend) cache random trees and file outputs and restore them over every listed destination pre-state; the real binary is driven through build / perturb output paths / rebuild (cache hits) and grog run of restored bin outputs. Any difference in the recursive listing, or anything extra left behind, refutes the property.',
+   note='Pre-states outside the statement (directory where a file should be, symlink at the path) are leads only. Docker outputs are not covered (no daemon offline).', ref='4/C06'),
 }
 na_reason='check under construction in this session: not claimed until its monitor is built and silent on the unchanged tree'
 checks=[]
@@ -46,7 +49,7 @@ m=dict(version=1, setup_cmd='./setup.sh',
   hooks=dict(guard='verif', enable='go build -tags verif (checks build /repo\'s working tree into /verif/.cache/<source-hash>/)',
      baseline_off_cmd="cd /repo && GOPROXY=off go test -json -vet=off -count=1 -timeout 25m ./...",
      source_commits=hook_commits, add_only=True),
-  engines=[dict(name='E2-sched', path='vctl/internal/e2 + harness/walker', serves_properties=['C03','C04'], kind_free_text='in-process drivers overlaid into the grog module (go test -c -overlay), run in child processes under -race / synctest; offline checkers over their logs'), dict(name='E1-histories', path='vctl/internal/e1', serves_properties=['C01','C02','C05','C13','C14','C15'], kind_free_text=E1)],
+  engines=[dict(name='E2-sched', path='vctl/internal/e2 + harness/walker', serves_properties=['C03','C04'], kind_free_text='in-process drivers overlaid into the grog module (go test -c -overlay), run in child processes under -race / synctest; offline checkers over their logs'), dict(name='E3-store', path='vctl/internal/e2 + harness/store', serves_properties=['C06','C07'], kind_free_text='in-process driver for output handlers, CAS, target cache and fs backend (restore exactness, fault-injecting backend decorator, concurrent histories for porcupine); crash-point enumeration on the real binary'), dict(name='E1-histories', path='vctl/internal/e1', serves_properties=['C01','C02','C05','C13','C14','C15'], kind_free_text=E1)],
   checks=checks, not_applicable=na,
   notes='All checks are runtime monitors over executions of the real code. Known findings: KNOWN_FINDINGS.txt. Design: DESIGN.md.')
 json.dump(m, open(f'{V}/MANIFEST.json','w'), indent=1)
